@@ -40,6 +40,9 @@ func genC07(t *rapid.T) c07Case {
 		c.Cfg.VInc = rapid.SampledFrom([]string{"", "same", "add:1", "dbl"}).Draw(t, "vinc")
 		c.Cfg.VDec = rapid.SampledFrom([]string{"", "half", "sub:1", "sub:5"}).Draw(t, "vdec")
 	}
+	if c.Cfg.Algo == "vegas" && rapid.IntRange(0, 4).Draw(t, "customNoLoad") == 0 {
+		c.Cfg.NoLoad = "single" // a caller-supplied baseline measurement (keeps the latest record low): recovery must not depend on the default one
+	}
 	if c.Cfg.VThr == "" && c.Cfg.NoLoad == "" {
 		genUnsetSafe(t, &c.Cfg) // short constructors / parameters left to the library defaults: judged without assuming any default value
 	}
@@ -267,7 +270,7 @@ func runC07Defaults(c c07Case, b built, out kit.Outcome, ntPrefix bool) kit.Outc
 		out.Labels = append(out.Labels, "discard:default-initial-below-min")
 		return out
 	}
-	if q := c.Cfg.effectiveQueue(); algo == "gradient2" && q(maxInt(fresh.Outer.EstimatedLimit(), 1)) < 1 {
+	if q := c.Cfg.effectiveQueue(); (algo == "gradient2" || algo == "gradient") && (q(maxInt(fresh.Outer.EstimatedLimit(), 1)) < 1 || q(maxInt(b.Outer.EstimatedLimit(), 1)) < 1) {
 		out.Labels = append(out.Labels, "allowance0-no-growth-claimed")
 		return out
 	}
